@@ -366,6 +366,35 @@ theorem nested_null_layer_lifts (before after : List Value) (acc b : Value) (st 
       simp only [h1] at h ⊢
       exact ih a1 h
 
+/-- Layers are folded left to right: an error among the first layers is the result, whatever follows. -/
+theorem flatVl_append (a b : List Value) (base : Value) (st : RState) :
+    flatVl (a ++ b) base st =
+      match flatVl a base st with
+      | .error e => .error e
+      | .ok r => flatVl b r st := by
+  induction a generalizing base with
+  | nil => rfl
+  | cons x xs ih =>
+    simp only [List.cons_append, flatVl]
+    cases h : mergeV base x st with
+    | error e => rfl
+    | ok r => exact ih r
+
+/-- **A later reset does not hide an earlier violation.**  The protection is lifted for the layers
+*after* a `null` layer, not retroactively: if a layer wrote to a constant before the enclosing
+mapping was reset to `null`, rendering the layer list still fails with the constant-key error,
+whatever layers (resets included) follow. -/
+theorem nested_violation_not_hidden_by_later_reset (c w : Mapping) (mid : List Mapping)
+    (later : List Value) (k k0 : Key) (v old : Value) (st : RState)
+    (hk : k0 ∈ c.ck) (hl : lookup k0 c.es = some old)
+    (hmem : (k, v) ∈ w.es) (hs : k.stripPrefix.1 = k0) :
+    ∃ k', flatVl ((c :: (mid ++ [w])).map Mapping.toValue ++ .null :: later) .null st =
+      .error (.constKey k') := by
+  obtain ⟨k', he⟩ := nested_const_then_write_fails c w mid [] k k0 v old st hk hl hmem hs
+  refine ⟨k', ?_⟩
+  rw [flatVl_append, he]
+
+
 /-! ### Non-vacuity -/
 
 private def kA : Key := .str "a".toList
@@ -388,6 +417,8 @@ example (st : RState) :
     flatVl [cA.toValue, lB.toValue, wA.toValue] .null st = .error (.constKey kA) := rfl
 example (st : RState) :
     flatVl [cA.toValue, .null, wA.toValue] .null st = .ok wA.toValue := rfl
+example (st : RState) :
+    flatVl [cA.toValue, wA.toValue, .null, lB.toValue] .null st = .error (.constKey kA) := rfl
 /-- layers before the constant definition merge normally -/
 example : ∃ r, mergeLayers {} [wA, cA] = .ok r ∧ kA ∈ r.ck := ⟨_, rfl, by decide⟩
 
